@@ -40,6 +40,24 @@ def clean_shape(key):
         return r.rounds, r.emit_idx
 
 
+class DropsAndSlowNaks(Plan):
+    """the given emissions are lost; every NAK PDU reaches the sender ``delay`` rounds late"""
+
+    def __init__(self, drops, delay):
+        super().__init__()
+        self.drops, self.delay = set(drops), delay
+
+    def on_emit(self, idx, item):
+        d = item["d"]
+        if idx in self.drops:
+            self.applied.append((idx, "drop", wire.short(d), item["side"]))
+            return []
+        if self.delay and item["side"] == "D" and d.get("kind") == "NAK":
+            self.applied.append((idx, f"delay{self.delay}", wire.short(d), "D"))
+            return [(("delay", self.delay), item["raw"])]
+        return [("now", item["raw"])]
+
+
 class MdLostRacePlan(Plan):
     """Every Metadata PDU is lost; an EOF (cancel) reaches the receiver in the very call which notices its next timer expiry."""
 
@@ -83,6 +101,13 @@ def gen_cases(tier, seed):
                     drops = range(nemit) if (tier == "thorough" or (cks == "crc32" and not disp)) else ()
                     for k in drops:
                         cases.append({"cfg": cfg, "side": side, "round": r, "wrong": False, "drop": k})
+    # two lost File Data PDUs (acknowledged mode, immediate NAKs: two NAKs reach the sender at different steps) x cancel at every round
+    cfg = dict(base("ack", False, False, "crc32", 17), imm_nak=True)
+    rounds, nemit = clean_shape(tuple(sorted(cfg.items())))
+    for p1, p2 in itertools.combinations(range(1, 6), 2):
+        for r in range(rounds + 4):
+            for nak_delay in (0, 1, 2, 3):
+                cases.append({"cfg": cfg, "side": "S", "round": r, "wrong": False, "drop": [p1, p2], "nak_delay": nak_delay})
     # the same cancel points on handlers which already went through another transaction
     for mode, closure, prior in itertools.product(("ack", "unack"), (False, True), ("completed", "cancelled_S", "cancelled_D", "reset_undrained")):
         cfg = base(mode, closure, True, "crc32", 13)
@@ -126,7 +151,8 @@ def run_case(case):
 
             plan = RandomPlan(case["rand"], {"drop": 0.08, "dup": 0.05, "delay": 0.05, "late": 0.02}, max_faults=3)
         else:
-            plan = EnumPlan({} if case["drop"] is None else {case["drop"]: "drop"})
+            drops = [] if case["drop"] is None else (case["drop"] if isinstance(case["drop"], list) else [case["drop"]])
+            plan = EnumPlan({k: "drop" for k in drops}) if not case.get("nak_delay") else DropsAndSlowNaks(drops, case["nak_delay"])
         if case.get("md_lost_race"):
             plan = MdLostRacePlan()
             obs["cancels_with_metadata_never_arriving"] = 1
